@@ -1954,10 +1954,23 @@ def _b_sum(it, args, kw):
 
 def _b_enumerate(it, args, kw):
     start = args[1] if len(args) > 1 else kw.get("start", 0)
+    if isinstance(args[0], AbsSeq):
+        seq = args[0]
+        c = seq.contract
+        if c is None or not hasattr(c, "index_term"):
+            raise Unsupported("enumerate over an abstract sequence whose contract has no index term")
+        return seq.derive(lambda it_, x: (SInt(c.index_term() + start) if start else SInt(c.index_term()), x), seq.name + ".enum")
     return [(i + start, x) for i, x in enumerate(it.iterate(args[0]))]
 
 
 def _b_zip(it, args, kw):
+    seqs = [a.abs_seq if hasattr(a, "abs_seq") else a for a in args]
+    if any(isinstance(a, AbsSeq) for a in seqs):
+        # zip of abstract sequences that share one loop contract: the contract's element is the zipped tuple
+        if not all(isinstance(a, AbsSeq) for a in seqs) or len({id(a.contract) for a in seqs}) != 1:
+            raise Unsupported("zip of abstract sequences with different loop contracts")
+        z = AbsSeq("zip(" + ",".join(a.name for a in seqs) + ")", seqs[0].contract, seqs[0].length)
+        return z
     return list(zip(*[it.iterate(a) for a in args]))
 
 
